@@ -89,6 +89,18 @@ func (b *BlockList) loadInitial() {
 	}
 
 	if _, err := os.Stat(b.cfg.BlockListDir); err == nil {
+		// Nothing is persisting yet, so any persist temp file here was
+		// abandoned by an interrupted save. The state that save left is
+		// the previous complete local file; the remnant is dropped, or it
+		// would be read back on this and every later start and undo
+		// removals completed since.
+		if entries, err := os.ReadDir(b.cfg.BlockListDir); err == nil {
+			for _, e := range entries {
+				if e.Type().IsRegular() && strings.HasPrefix(e.Name(), persistTempPrefix) {
+					_ = os.Remove(filepath.Join(b.cfg.BlockListDir, e.Name()))
+				}
+			}
+		}
 		if err := b.readBlocklists(); err != nil {
 			zlog.Warn("Read local blocklists failed", "dir", b.cfg.BlockListDir, "error", err.Error())
 		}
@@ -258,6 +270,12 @@ func (b *BlockList) readBlocklists() error {
 			return nil
 		}
 		if !f.IsDir() {
+			// A persist in flight (the refresh pass runs beside the API)
+			// owns its temp file until the rename: not a list, and not
+			// ours to remove.
+			if strings.HasPrefix(f.Name(), persistTempPrefix) {
+				return nil
+			}
 			file, err := os.Open(path) //nolint:gosec // G304 - path from walk, not user input
 			if err != nil {
 				return fmt.Errorf("error opening file: %w", err)
